@@ -408,8 +408,15 @@ class _AbsTurn:
 
 
 def _same_num(p, q):
+    """identical values; float-derived constants (e.g. the control points of Primitive.circle) may differ by rounding:
+    two values whose difference is a constant below 1e-9 count as the same chain vertex"""
     p, q = lift(p), lift(q)
-    return p.n == q.n and p.d == q.d
+    if p.n == q.n and p.d == q.d:
+        return True
+    if p.d is None and q.d is None:
+        d = p.n - q.n
+        return d.is_const() and abs(d.cval()) < Fraction(1, 10**9)
+    return False
 
 
 class Turn:
